@@ -540,8 +540,9 @@ def concretize(x):
         return x
     e = eng()
     n = 0
+    wide = (x.hi - x.lo) > e.max_picks
     while True:
-        val, taken = e.pick(x.t)
+        val, taken = e.pick(x.t, prefer=(x.hi, x.lo) if wide else ())
         if taken:
             return val
         n += 1
